@@ -85,16 +85,17 @@ def special_specs(tier):
     specs = []
     for kind in L.KINDS:
         # every request type: normal and exception reply from a conformant server, with history (tid incl. wrap)
+        safe = [q for q in REQS if q != "write_coil"] if L.FRAMING[kind] == "FBin" else REQS
         for i, req in enumerate(REQS):
             if req == "write_coil" and L.FRAMING[kind] == "FBin":
                 continue            # its reply carries 0x7D in the CRC: binary framer finding (C03/C06 #10), shown once in C08
             specs.append(dict(kind=kind, retries=r.choice([0, 1, 3, None]), roe=bool(i & 1), roi=bool(i & 2), tid0=TIDS[i % len(TIDS)],
                               txs=[dict(req=req, unit=UNITS[i % 4], script=[("full", {})]),
                                    dict(req=req, unit=UNITS[i % 4], script=[("exc", {})]),
-                                   dict(req=REQS[(i + 5) % len(REQS)], unit=UNITS[(i + 1) % 4], script=[])]))
+                                   dict(req=safe[(i + 5) % len(safe)], unit=UNITS[(i + 1) % 4], script=[])]))
         # long histories on one client, tid wrap inside
         specs.append(dict(kind=kind, retries=1, roe=True, roi=False, tid0=65533,
-                          txs=[dict(req=[q for q in REQS if q != "write_coil"][j % 19], unit=5,
+                          txs=[dict(req=[q for q in REQS if q != "write_coil"][j % (len(REQS) - 1)], unit=5,
                                     script=[(r.choice(["full", "exc", "nothing", "full"]), {})]) for j in range(6)]))
         # a device marked as not responding is read with full=True next time
         specs.append(dict(kind=kind, retries=0, roe=False, roi=False, tid0=9,
@@ -249,6 +250,8 @@ def spec_answer(budget, roe, roi, behs):
             return True
         if b == "exc":
             return None if late else False
+        if b == "wrongthenown":
+            return None if (roi or late) else False
         if b in ("nothing", "late") and roe and budget > 0:
             budget -= 1
             late = late or b == "late"
@@ -284,7 +287,10 @@ def failing_txns(pid, desc):
                 if res[0] == "reply":
                     ok = paired(kind, t, res) and list(res[1:]) in t["delivered"]
                 first = behs[0] if behs else "full"
-                ok = ok and expected_ok(kind, t, {"full": True, "exc": False}.get(first))
+                want = {"full": True, "exc": False}.get(first)
+                if first == "wrongthenown" and not spec.get("roi"):
+                    want = False
+                ok = ok and expected_ok(kind, t, want)
         else:
             ok = t["sends"] <= 1 + retries
             ok = ok and (res[0] in ("reply", "err") or (res[0] == "bcast" and bcast)
@@ -322,8 +328,6 @@ def region_of(pid, spec, i):
                 return "F-C13-ascii-nonhex-valueerror"
             if fr == "FBin" and res == ["raise", "StructError"]:
                 return "F-C13-binary-adjacent-delimiters-structerror"
-            if kind == "udp" and res == ["raise", "InvalidMessageExc"] and any(0 < len(x) < 8 for x in rx):
-                return "F-C13-udp-short-datagram-raises"
             if kind == "udp" and t["sends"] >= 2 and res[0] == "err":
                 return "F-C13-udp-retry-reads-datagram-in-two-parts"
             if res == ["none"] and prev is not None and prev["result"] == ["err", None] and prev["delivered"]:
@@ -332,12 +336,13 @@ def region_of(pid, spec, i):
             if res[0] == "reply" and not paired(kind, t, res):
                 if "stale" in reached(tx, t):
                     return "F-C08-tid-fc-pairing"
-                if serial_framing(kind) and t["unit"] in (0, 255) and "wrongunit" in reached(tx, t):
+                if serial_framing(kind) and t["unit"] in (0, 255) and (
+                        "wrongunit" in reached(tx, t) or "wrongthenown" in reached(tx, t)):
                     return "F-C08-unit-0-255-wildcard"
-                if kind == "udp" and any(0 < len(x) < 8 for x in rx):
-                    return "F-C08-udp-short-datagram-bogus-reply"
             if fr == "FBin" and any(b in (0x7b, 0x7d) for b in bytes.fromhex(t["full_frame"])[1:-1]):
                 return "F-C08-binary-delimiter-bytes"
+            if fr == "FBin" and "wrongthenown" in reached(tx, t) and res[0] == "err":
+                return "F-C08-binary-foreign-unit-frame-resets-read"
         return None
     return go
 
@@ -362,3 +367,21 @@ def replay_spec(pid, spec):
     """re-run a case spec on the implementation; True if the (python mirror of the) oracle still fails"""
     c = make_case(spec, "replay")
     return bool(failing_txns(pid, c.desc))
+
+
+def foreign_then_own_specs():
+    """a complete frame of another unit followed by the own (exception) reply in the same burst: serial framings
+    (incl. framer-over-tcp) and udp read both in one read; since repairs 10/11 the own reply must be returned
+    (binary framer: unchanged, known finding).  Not generated for the plain tcp client, which reads one frame by its
+    MBAP length."""
+    specs = []
+    for kind in L.KINDS:
+        if kind == "tcp":
+            continue
+        for unit in (5, 17, 0):
+            for roi in (False, True):
+                for roe in (False, True):
+                    specs.append(dict(kind=kind, retries=1, roe=roe, roi=roi, tid0=65535 if unit == 17 else 7,
+                                      txs=[dict(req="read_holding_big", unit=unit, script=[("wrongthenown", {}), ("full", {})]),
+                                           dict(req="read_coils", unit=unit, script=[])]))
+    return specs
